@@ -1,14 +1,22 @@
 (* C08: case/observation types, executable checker [holds], and the sx entry point. *)
 From Coq Require Import String.
 From Coq Require Import List NArith ZArith Bool Arith.
-From VF Require Import Base.Sx Tftp.Readers.
+From VF Require Import Base.Sx Tftp.Readers Tftp.Codec.
 Import ListNotations.
 
-Record case := { content : list N; chunking : list nat; bs : nat; always_skip : bool }.
-Definition obs := list (list N).            (* payloads of the DATA blocks in order *)
+Record case := { content : list N; chunking : list nat; bs : nat; always_skip : bool;
+                 (* options of the read request, server limits and the kind of the handler's stream:
+                    what decides whether a transfer size is announced *)
+                 opts : list (str * str); lim : limits; kind : stream_kind }.
+(* payloads of the DATA blocks in order, and whether the OACK announced a transfer size *)
+Definition obs := (list (list N) * bool)%type.
+
+Definition announces_tsize (oack : list (str * str)) : bool :=
+  match dict_get oack (lit "tsize") with Some _ => true | None => false end.
 
 Definition run_model (c : case) : obs :=
-  netascii_blocks (always_skip c) (bs c) (content c) (chunking c).
+  (netascii_blocks (always_skip c) (bs c) (content c) (chunking c),
+   announces_tsize (n_oack (negotiate ncurrent (lim c) true (kind c) (opts c)))).
 
 Definition list_N_eqb (a b : list N) : bool :=
   if list_eq_dec N.eq_dec a b then true else false.
@@ -22,17 +30,35 @@ Fixpoint framedb (bs : nat) (bl : list (list N)) : bool :=
 
 (* failed clauses of the property for observation o (empty list = holds) *)
 Definition holds (c : case) (o : obs) : list string :=
-  (if list_N_eqb (concat o) (netascii_spec (content c)) then [] else ["payload_is_netascii_of_content"%string]) ++
-  (if framedb (bs c) o then [] else ["block_framing"%string]).
+  (if list_N_eqb (concat (fst o)) (netascii_spec (content c)) then [] else ["payload_is_netascii_of_content"%string]) ++
+  (if framedb (bs c) (fst o) then [] else ["block_framing"%string]) ++
+  (if snd o then ["no_tsize_in_netascii"%string] else []).
 
 Definition valid (c : case) : Prop := (1 <= bs c)%nat /\ always_skip c = false.
 
+Definition de_pair (x : sx) : option (str * str) :=
+  match x with L [B a; B b] => Some (a, b) | _ => None end.
+Definition de_kind (x : sx) : option stream_kind :=
+  match x with
+  | L [I 0%Z; s; p] => obind (asN s) (fun s => obind (asN p) (fun p => Some (KBytesIO s p)))
+  | L [I 1%Z; s; p; r] => obind (asN s) (fun s => obind (asN p) (fun p => obind (asBool r) (fun r => Some (KRealFile s p r))))
+  | L [I 2%Z] => Some KNoFileno
+  | _ => None
+  end.
+
+(* (content chunks bs variant options (max_bs max_tmo default_tmo) kind (impl_blocks impl_tsize)) *)
 Definition decode (x : sx) : option (case * obs) :=
   match x with
-  | L [B ct; ch; I b; I v; io] =>
+  | L [B ct; ch; I b; I v; op; L [mb; mt; dt]; kd; L [io; it]] =>
       obind (asListOf asNat ch) (fun ch =>
       obind (asListOf asB io) (fun io =>
-      Some ({| content := ct; chunking := ch; bs := Z.to_nat b; always_skip := negb (v =? 0)%Z |}, io)))
+      obind (asBool it) (fun it =>
+      obind (asListOf de_pair op) (fun op =>
+      obind (asN mb) (fun mb => obind (asN mt) (fun mt => obind (asN dt) (fun dt =>
+      obind (de_kind kd) (fun kd =>
+      Some ({| content := ct; chunking := ch; bs := Z.to_nat b; always_skip := negb (v =? 0)%Z;
+               opts := op; lim := {| max_bs := mb; max_tmo := mt; default_tmo := dt |}; kind := kd |},
+            (io, it))))))))))
   | _ => None
   end.
 
@@ -41,5 +67,6 @@ Definition entry (x : sx) : sx :=
   | None => sxS "bad-case"
   | Some (c, io) =>
       let m := run_model c in
-      L [ L (map B m); L (map sxS (holds c m)); L (map sxS (holds c io)); B (netascii_spec (content c)) ]
+      L [ L [L (map B (fst m)); sxBool (snd m)]; L (map sxS (holds c m)); L (map sxS (holds c io));
+          B (netascii_spec (content c)) ]
   end.
